@@ -196,14 +196,14 @@ NoRet == [ev |-> NoEv, rsig |-> FALSE]
 (*     st      "ok" | "dup" (a state tuple twice) | "nokey" (an event      *)
 (*             without state key)                                          *)
 (*     jrsig   "ok" | "bad": signature on the join-rules event             *)
-(*     ban     a (validly signed) ban of U is in the returned state        *)
+(*     ban     "yes": a (validly signed) ban of U is in the returned state *)
 (*     jret    the join event in the response: "signed" | "absent" |       *)
 (*             "notjoin" (ignored by J)                                    *)
 (***************************************************************************)
 RespState(m, s) ==
     [create |-> m.create = "ok",
      jr     |-> IF m.jrsig = "bad" THEN "none" ELSE s.jr,        \* an event with a bad signature is discarded
-     mem    |-> IF m.ban THEN "ban" ELSE s.mem,
+     mem    |-> IF m.ban = "yes" THEN "ban" ELSE s.mem,
      aHere  |-> s.aHere, aOK |-> APowerOK(s)]
 
 PJChecks(m, e, s) ==
@@ -221,9 +221,10 @@ Base(v) == [ver |-> v, rv |-> "known", inRoom |-> TRUE, jr |-> "public", mem |->
             uq |-> "ok"]
 
 E2EJoin(vs) ==
-    {[Base(v) EXCEPT !.jr = jr, !.mem = mem, !.inRoom = ir, !.pending = (mem = "invite"), !.allow = al] :
-        v \in vs, jr \in {"public", "invite", "restricted"}, mem \in {"none", "invite", "ban"},
-        ir \in BOOLEAN, al \in {<<"listed">>}}
+    UNION {{[Base(v) EXCEPT !.jr = jr, !.mem = mem, !.inRoom = ir, !.pending = (mem = "invite"), !.allow = al] :
+               al \in (IF jr = "restricted" /\ mem = "none" THEN {<<"listed">>, <<"nouser">>, <<"nonres", "listed">>}
+                       ELSE IF jr = "restricted" THEN {<<"listed">>} ELSE {<<>>})} :
+           v \in vs, jr \in {"public", "invite", "restricted"}, mem \in {"none", "invite", "ban"}, ir \in BOOLEAN}
 E2ELeave(vs)  == {[Base(v) EXCEPT !.mem = mem, !.inRoom = ir] : v \in vs, mem \in {"join", "ban"}, ir \in BOOLEAN}
 E2EInvite(vs) == {[Base(v) EXCEPT !.mem = mem, !.known = kn] : v \in vs, mem \in {"none", "join"}, kn \in BOOLEAN}
 
@@ -292,7 +293,7 @@ SendJoinResp ==
            ret == IF d.res = "ok" THEN Countersigned(net.ev) ELSE NoRet IN
        /\ net' = [k |-> "sjresp", res |-> d.res, ev |-> ret.ev,
                   jret |-> IF d.res = "ok" THEN "signed" ELSE "absent",
-                  create |-> "ok", st |-> "ok", jrsig |-> "ok", ban |-> FALSE]
+                  create |-> "ok", st |-> "ok", jrsig |-> "ok", ban |-> "no"]
        /\ Log([a |-> "SendJoinResp", req |-> net, res |-> d.res, code |-> d.code, why |-> d.why, ret |-> ret])
     /\ phase' = Next_("sjresp")
     /\ UNCHANGED <<sc, flow, jev, nforge, pj>>
@@ -355,7 +356,7 @@ ForgeTable ==
                  e_type |-> {"other"}, e_mship |-> {"leave"}, e_skey |-> {"other"}, e_ssrv |-> {"X"},
                  e_room |-> {"other"}, e_via |-> {"remote", "local"}, e_sig |-> {"none", "wrongkey", "other"}],
      sjresp |-> [create |-> {"missing", "unknownver", "badsig"}, st |-> {"dup", "nokey"}, jrsig |-> {"bad"},
-                 ban |-> {TRUE}, jret |-> {"absent", "notjoin"}],
+                 ban |-> {"yes"}, jret |-> {"absent", "notjoin"}],
      mlreq  |-> [origin |-> {"X"}, usrv |-> {"X"}, room |-> {"other"}],
      invreq |-> [room |-> {"other"}, e_type |-> {"other"}, e_mship |-> {"join"}, e_skey |-> {"otherlocal", "sender"},
                  e_room |-> {"other"}, e_sig |-> {"none", "wrongkey", "other"}]]
@@ -433,13 +434,14 @@ Forge(f, v, resign) ==
     /\ Log([a |-> "Forge", at |-> net.k, f |-> f, v |-> v, resign |-> resign])
     /\ UNCHANGED <<sc, flow, phase, jev, pj>>
 
-ForgeFields == UNION {DOMAIN ForgeTable[k] : k \in DOMAIN ForgeTable}
-ForgeValues == UNION {UNION {ForgeTable[k][f] : f \in DOMAIN ForgeTable[k]} : k \in DOMAIN ForgeTable}
+ForgeAny ==
+    /\ net.k \in DOMAIN ForgeTable
+    /\ \E f \in DOMAIN ForgeTable[net.k] : \E v \in ForgeTable[net.k][f] : \E r \in ResignChoices(f) : Forge(f, v, r)
 
 Next ==
     \/ MakeJoinReq \/ MakeJoinResp \/ BuildJoin \/ SendJoinReq \/ SendJoinResp \/ JoinDone
     \/ MakeLeaveReq \/ MakeLeaveResp \/ InviteReq \/ InviteResp
-    \/ \E f \in ForgeFields, v \in ForgeValues, r \in BOOLEAN : Forge(f, v, r)
+    \/ ForgeAny
 
 Spec == Init /\ [][Next]_vars
 
